@@ -33,7 +33,7 @@ ASSUMPTIONS = [
     "ground truth = brute force of the planted failure over the argument domain 0..7 (trip counts are masked to 3 bits)",
     "a non-PASS verdict or a run that reports an error counts as 'reported'",
 ]
-WATCHDOG_S = {"quick": 900, "thorough": 7200}
+WATCHDOG_S = {"quick": 2400, "thorough": 10800}
 
 MANIFEST = {
     "technique": "generated loop/branch/length programs with brute-forced ground truth run end to end under bound configurations; the check is on silence: a PASS that misses a reachable failure must carry the matching warning in the log of that very run (repeated runs and same-signature contracts included)",
